@@ -1,4 +1,5 @@
 import MpVerif.C03.ModelSpec
+import Std.Data.HashMap
 /-! Line driver for C03.  Input: the model / run lines printed by harness/h_nlw2.cc (without the "M " prefix).
     For every `run` line it prints `== <case> <run args> wf=<bool>` followed by the canonical lines of
     `readTokens (writeNL m o)` (the composed model of writer and reader) and a line `spec-agree <bool>` telling
@@ -163,7 +164,33 @@ def step (b : Builder) (toks : List String) : Option Builder :=
 def runCodec (binary : Bool) (vbBack : Dbl) : Codec :=
   ⟨if binary then id else Dbl.normZero, fun _ => vbBack⟩
 
-def doRun (b : Builder) (args : List String) (out : IO.FS.Stream) : IO Unit := do
+/-- which arm of the model a token / a handler node comes from (statistics only) -/
+def tokKey : Tok → String
+  | .ch t => s!"tok:ch:{t.toChar}{if t == .fmtB || t == .segb then (if t == .fmtB then "(fmt)" else "(seg)") else ""}"
+  | .bt n => s!"tok:bound-type:{n}"
+  | .int _ => "tok:int" | .dbl _ => "tok:dbl" | .sh _ => "tok:short" | .lg _ => "tok:long" | .name _ => "tok:name"
+  | .holl _ => "tok:hollerith" | .vbt _ => "tok:vbtol" | .cmt _ => "tok:comment" | .eol => "tok:eol"
+
+partial def heKeys : HE → List String
+  | .null => ["he:null"]
+  | .node tag _ _ _ kids => s!"he:{tag}" :: kids.flatMap heKeys
+
+def evKeys : Ev → List String
+  | .header h => ["ev:header", s!"hdr:nlc{if h.nlc = 0 then "=0" else ">0"}", s!"hdr:ncc{if h.ncc = 0 then "=0" else ">0"}",
+                  s!"hdr:flags{h.flags}:arith{h.arith}", s!"hdr:nopts{if h.nopts < 2 then "<2" else ">=2"}"]
+  | .cend _ _ e => "ev:cend" :: heKeys e
+  | .acon _ e => "ev:acon" :: heKeys e
+  | .lcon _ e => "ev:lcon" :: heKeys e
+  | .obj _ _ e => "ev:obj" :: heKeys e
+  | .func .. => ["ev:func"] | .isuf .. => ["ev:isuf"] | .dsuf .. => ["ev:dsuf"] | .svalI .. => ["ev:svalI"] | .svalD .. => ["ev:svalD"]
+  | .vb .. => ["ev:vb"] | .cb .. => ["ev:cb"] | .compl .. => ["ev:compl"] | .x0 .. => ["ev:x0"] | .d0 .. => ["ev:d0"]
+  | .cbeg .. => ["ev:cbeg"] | .cterm .. => ["ev:cterm"] | .csz => ["ev:csz"] | .cadd .. => ["ev:cadd"]
+  | .jbeg .. => ["ev:jbeg"] | .jterm .. => ["ev:jterm"] | .gbeg .. => ["ev:gbeg"] | .gterm .. => ["ev:gterm"] | .endInput => ["ev:end"]
+
+def bump (st : IO.Ref (Std.HashMap String Nat)) (ks : List String) : IO Unit :=
+  st.modify fun m => ks.foldl (fun m k => m.insert k (m.getD k 0 + 1)) m
+
+def doRun (st : IO.Ref (Std.HashMap String Nat)) (b : Builder) (args : List String) (out : IO.FS.Stream) : IO Unit := do
   match args with
   | [fmt, c, bf, cs, rf, vbs] =>
     match fmt.toNat?, c.toNat?, bf.toNat?, cs.toNat?, rf.toNat?, parseDbl vbs with
@@ -174,8 +201,12 @@ def doRun (b : Builder) (args : List String) (out : IO.FS.Stream) : IO Unit := d
       let cd := runCodec o.binary vbBack
       out.putStrLn s!"== {b.id} {fmt} {c} {bf} {cs} {rf} wf={wellFormed m o} quirkfree={quirkFree cd m}"
       let toks := writeNL m o
+      bump st (toks.map tokKey)
+      bump st [s!"opt:binary={o.binary}", s!"opt:comments={o.comments}", s!"opt:boundsFirst={o.boundsFirst}", s!"opt:colSizes={o.colSizes}",
+               s!"reader:flags={rf}", s!"model:wf={wellFormed m o}"]
       match (if rf == 0 then readTokens cd toks else readTokensBF cd toks) with
       | .ok evs =>
+        bump st (evs.flatMap evKeys)
         for e in evs do out.putStrLn e.toLine
         if rf == 0 then
           let spec := (events cd m o).map Ev.toLine
@@ -184,22 +215,25 @@ def doRun (b : Builder) (args : List String) (out : IO.FS.Stream) : IO Unit := d
     | _, _, _, _, _, _ => out.putStrLn "bad-op"
   | _ => out.putStrLn "bad-op"
 
-partial def loop (h : IO.FS.Stream) (out : IO.FS.Stream) (b : Builder) : IO Unit := do
+partial def loop (st : IO.Ref (Std.HashMap String Nat)) (h : IO.FS.Stream) (out : IO.FS.Stream) (b : Builder) : IO Unit := do
   let line ← h.getLine
-  if line.isEmpty then return ()
+  if line.isEmpty then
+    for (k, v) in (← st.get).toList do out.putStrLn s!"#stat {k} {v}"
+    return ()
   let toks := (line.trimAscii.toString.splitOn " ").filter (· ≠ "")
   match toks with
   | "run" :: args =>
-    if b.bad then out.putStrLn "bad-op" else doRun b args out
-    loop h out b
-  | [] => loop h out b
+    if b.bad then out.putStrLn "bad-op" else doRun st b args out
+    loop st h out b
+  | [] => loop st h out b
   | _ =>
     match step b toks with
-    | some b' => loop h out b'
+    | some b' => loop st h out b'
     | none =>
       out.putStrLn s!"bad-op {toks.headD ""}"
-      loop h out { b with bad := true }
+      loop st h out { b with bad := true }
 
 def main : IO Unit := do
   let out ← IO.getStdout
-  loop (← IO.getStdin) out {}
+  let st ← IO.mkRef ({} : Std.HashMap String Nat)
+  loop st (← IO.getStdin) out {}
